@@ -3,6 +3,7 @@ search rules (C01-C05, C22-C24)."""
 from sym import Walker, strip, show, mentions, unclone, TRANSPARENT, CLONE
 
 NODE_TY = "solution_node::SolutionNode"
+STDOUT_FNS = {"std::io::_print", "std::io::stdout", "std::io::Stdout::write", "std::io::Write::write_all"}
 # private functions the solver rules name themselves (never inlined into their callers)
 KEEP = ()
 
@@ -33,6 +34,7 @@ class Solver:
                 if not c.get("indirect"):
                     calls[b.path].add(c.get("resolved") or c["path"])
         self.calls = calls
+        self.crate_fns = {b.path for b in lib}
         verdict1 = [b for b in lib if b.kind == "Fn" and b.mir["arg_count"] == 1 and node_arg(b) and is_verdict_ty(b.ret_ty)]
         # clause fetchers, by type: fn(&KnowledgeBase, ..) -> Rule
         self.fetchers = {b.path for b in lib if b.kind == "Fn" and b.ret_ty == "rule::Rule" and
@@ -93,6 +95,86 @@ class Solver:
             self.paths_cache[key] = Walker(body, max_visits=max_visits, inline=self.inline).paths()
         return self.paths_cache[key]
 
+    # ---- functions that cannot matter to the search ----------------------------------------------------------
+    WRITE_ONCE = ("std::sync::OnceLock<", "std::sync::LazyLock<", "std::sync::Once", "std::cell::OnceCell<", "std::cell::LazyCell<")
+
+    def _neutral_setup(self):
+        if hasattr(self, "_neutral"):
+            return
+        from callgraph import CallGraph
+        import statics as st_
+        self._cg = CallGraph(self.prog, crates=["suiron-lib"])
+        self._acc = {p: st_.accesses(b) for p, b in self._cg.nodes.items()}
+        self._neutral = {}
+        roles = {getattr(self, r).path for r in ("entry", "and_fn", "or_fn", "bip_fn", "setter", "make_node", "make_base")
+                 if getattr(self, r) is not None} | set(self.fetchers)
+        self._roles = roles
+        reach = self._cg.reach([self.entry.path]) if self.entry is not None else set()
+        self._search_reads = {a["static"] for p in reach for a in self._acc.get(p, []) if a["kind"] in ("read", "ref")}
+        tys = {s_["path"]: s_["ty"] for s_ in (self.prog.lib or {}).get("statics", [])}
+        self.write_once_statics = {p for p, ty in tys.items() if ty.replace(" ", "").startswith(tuple(x for x in self.WRITE_ONCE))}
+
+    def neutral(self, path, _stack=()):
+        """Can a call of this crate function be ignored by rules about the search?  Yes when it is not one of the
+        solver's own functions, cannot reach node state through its parameters (no `&mut`, `RefCell`, `Cell`, raw
+        pointer), writes no static that search code reads (write-once cells initialised from process-wide data
+        excepted; counters nobody in the search reads are fine), prints nothing to stdout, and calls only such
+        functions."""
+        self._neutral_setup()
+        if path in self._neutral:
+            return self._neutral[path]
+        if path in _stack:
+            return True          # optimistic inside a cycle; the cycle's entry decides
+        b = self._cg.nodes.get(path)
+        ok = b is not None and path not in self._roles
+        if ok:
+            for i in range(1, b.mir["arg_count"] + 1):
+                if b.kind == "Closure" and i == 1:
+                    continue
+                ty = b.locals[i]["s"]
+                if "&mut" in ty or "RefCell<" in ty or "Cell<" in ty or "*mut" in ty:
+                    ok = False
+        if ok:
+            for a in self._acc.get(path, []):
+                if a["kind"] in ("write", "ref") or a.get("unknown"):
+                    if a["static"] in self.write_once_statics:
+                        continue
+                    if a["kind"] == "ref" and not a.get("static_mut") and a["static"] not in self._search_reads:
+                        continue
+                    if a["static"] in self._search_reads:
+                        ok = False
+        if ok:
+            for bb, t in b.calls():
+                c = t["callee"]
+                if c.get("indirect"):
+                    ok = False
+                    break
+                nm = c.get("resolved") or c.get("path") or ""
+                if nm in self._cg.nodes:
+                    if not self.neutral(nm, _stack + (path,)):
+                        ok = False
+                        break
+                elif nm in STDOUT_FNS:
+                    ok = False
+                    break
+                for ca in c.get("closure_args", []):
+                    if ca["closure"] in self._cg.nodes and not self.neutral(ca["closure"], _stack + (path,)):
+                        ok = False
+                        break
+        if not _stack:
+            self._neutral[path] = ok
+        return ok
+
+    def effectful(self, e):
+        """A call event that can matter to the search: a call into the crate (it may search, fetch clauses, mutate
+        nodes) that was not walked into, or something written to stdout.  Calls of std functions on values the path
+        already accounts for (formatting, atomics of statistics counters, environment lookups, a trace on stderr) are
+        not — stores into node fields and statics are tracked separately as write events / by C22's inventory."""
+        if e.get("inlined"):
+            return False
+        c = e["callee"]
+        return (c in self.crate_fns and not self.neutral(c)) or c in STDOUT_FNS
+
     def is_fetch(self, callee):
         return callee in self.fetchers
 
@@ -126,7 +208,7 @@ def goal_kinds(path):
 def real_calls(path):
     """Call events that are not smart-pointer plumbing."""
     return [e for e in path.events if e["k"] == "call" and e["decl"] not in TRANSPARENT and e["decl"] not in CLONE
-            and not e["callee"].endswith("::drop")]
+            and not e["callee"].endswith("::drop") and not e.get("inlined")]     # an inlined call is represented by its own events
 
 
 def is_none(t):
